@@ -171,7 +171,7 @@ func faultResidue(t *testing.T, prop string) {
 		saveJSON("VERIF_INFLIGHT", c)
 		st, err := runFaultsOpts(c, false, true)
 		if err != nil {
-			if !strings.Contains(err.Error(), "left behind") && !strings.Contains(err.Error(), "in storage") {
+			if prop != "C11" && !strings.Contains(err.Error(), "left behind") && !strings.Contains(err.Error(), "in storage") {
 				// content violations belong to C08; this variant only judges residue
 				rec.Case(evid.FP(c), false, "content-violation-left-to-C08")
 				return
